@@ -702,12 +702,22 @@ func compileAssignStmtLeft(context *funcContext, stmt *ast.AssignStmt) (int, []*
 			case ecUpvalue:
 				context.Upvalues.RegisterUnique(st.Value)
 			case ecLocal:
-				ec.reg = context.FindLocalVar(st.Value)
+				if len(stmt.Lhs) == 1 {
+					// store directly into the local only when nothing else is assigned: in a multiple
+					// assignment every right-hand side must be evaluated before any target is written
+					ec.reg = context.FindLocalVar(st.Value)
+				}
 			}
 			acs = append(acs, &assigncontext{ec, 0, 0, false, false})
 		case *ast.AttrGetExpr:
 			ac := &assigncontext{&expcontext{ecTable, regNotDefined, 0}, 0, 0, false, false}
-			compileExprWithKMVPropagation(context, st.Object, &reg, &ac.ec.reg)
+			if len(stmt.Lhs) == 1 {
+				compileExprWithKMVPropagation(context, st.Object, &reg, &ac.ec.reg)
+			} else {
+				// a local read in place could be overwritten by another target of the same assignment
+				ac.ec.reg = reg
+				reg += compileExpr(context, reg, st.Object, ecnone(0))
+			}
 			ac.keyrk = reg
 			reg += compileExpr(context, reg, st.Key, ecnone(0))
 			if _, ok := st.Key.(*ast.StringExpr); ok {
@@ -756,7 +766,7 @@ func compileAssignStmtRight(context *funcContext, stmt *ast.AssignStmt, reg int,
 		idx := reg
 		reginc := compileExpr(context, reg, expr, ec)
 		if ec.ctype == ecTable {
-			if _, ok := expr.(*ast.LogicalOpExpr); !ok {
+			if _, ok := expr.(*ast.LogicalOpExpr); !ok && lennames == 1 {
 				context.Code.PropagateKMV(context.RegTop(), &ac.valuerk, &reg, reginc)
 			} else {
 				ac.valuerk = idx
@@ -808,7 +818,8 @@ func compileAssignStmt(context *funcContext, stmt *ast.AssignStmt) { // {{{
 				opcode = OP_SETTABLEKS
 			}
 			code.AddABC(opcode, acs[i].ec.reg, acs[i].keyrk, acs[i].valuerk, sline(ex))
-			if !opIsK(acs[i].valuerk) {
+			if !opIsK(acs[i].valuerk) && acs[i].valuerk >= context.RegTop() {
+				// the value sits in a temporary; a local read in place (propagated MOVE) used none
 				reg -= 1
 			}
 		}
